@@ -111,6 +111,177 @@ func callsAny(fn *ast.FuncDecl, names ...string) bool {
 	return found
 }
 
+// sendsNonBlocking: is every send on <…>.<field> inside fn the communication of a select clause whose select
+// has a default clause (so that it can never block); false if there is no such send at all.
+func sendsNonBlocking(fn *ast.FuncDecl, field string) bool {
+	isSend := func(st ast.Stmt) bool {
+		sd, ok := st.(*ast.SendStmt)
+		if !ok {
+			return false
+		}
+		sel, ok := sd.Chan.(*ast.SelectorExpr)
+		return ok && sel.Sel.Name == field
+	}
+	total, guarded := 0, 0
+	ast.Inspect(fn, func(x ast.Node) bool {
+		switch n := x.(type) {
+		case *ast.SendStmt:
+			if isSend(n) {
+				total++
+			}
+		case *ast.SelectStmt:
+			hasDefault := false
+			for _, c := range n.Body.List {
+				if cc, ok := c.(*ast.CommClause); ok && cc.Comm == nil {
+					hasDefault = true
+				}
+			}
+			if hasDefault {
+				for _, c := range n.Body.List {
+					if cc, ok := c.(*ast.CommClause); ok && cc.Comm != nil && isSend(cc.Comm) {
+						guarded++
+					}
+				}
+			}
+		}
+		return true
+	})
+	return total > 0 && total == guarded
+}
+
+// returnsOnNilTask: does fn assign `v := <pkg>.NewTask(…)`, and leave through `if v == nil { …; return … }`
+// before it calls v.Launch().
+func returnsOnNilTask(fn *ast.FuncDecl) bool {
+	name := ""
+	ast.Inspect(fn, func(x ast.Node) bool {
+		as, ok := x.(*ast.AssignStmt)
+		if !ok || len(as.Lhs) != 1 || len(as.Rhs) != 1 {
+			return true
+		}
+		if c, ok := as.Rhs[0].(*ast.CallExpr); ok {
+			if sel, ok := c.Fun.(*ast.SelectorExpr); ok && sel.Sel.Name == "NewTask" {
+				if id, ok := as.Lhs[0].(*ast.Ident); ok {
+					name = id.Name
+				}
+			}
+		}
+		return true
+	})
+	if name == "" {
+		return false
+	}
+	var launchPos token.Pos
+	ast.Inspect(fn, func(x ast.Node) bool {
+		if c, ok := x.(*ast.CallExpr); ok {
+			if sel, ok := c.Fun.(*ast.SelectorExpr); ok && sel.Sel.Name == "Launch" {
+				if id, ok := sel.X.(*ast.Ident); ok && id.Name == name && launchPos == token.NoPos {
+					launchPos = c.Pos()
+				}
+			}
+		}
+		return true
+	})
+	found := false
+	ast.Inspect(fn, func(x ast.Node) bool {
+		is, ok := x.(*ast.IfStmt)
+		if !ok || launchPos == token.NoPos || is.Pos() > launchPos {
+			return true
+		}
+		b, ok := is.Cond.(*ast.BinaryExpr)
+		if !ok || b.Op != token.EQL {
+			return true
+		}
+		l, lok := b.X.(*ast.Ident)
+		r, rok := b.Y.(*ast.Ident)
+		if !lok || !rok || !((l.Name == name && r.Name == "nil") || (l.Name == "nil" && r.Name == name)) {
+			return true
+		}
+		if n := len(is.Body.List); n > 0 {
+			if _, ok := is.Body.List[n-1].(*ast.ReturnStmt); ok {
+				found = true
+			}
+		}
+		return true
+	})
+	return found
+}
+
+// notOkReturnsNil: in `if !ok { … }` of fn (the look-up of the task failed), is every return a `return nil`
+// (a handler error would end eventLoop); false if there is no such block or it does not return.
+func notOkReturnsNil(fn *ast.FuncDecl) bool {
+	blocks, good := 0, 0
+	ast.Inspect(fn, func(x ast.Node) bool {
+		is, ok := x.(*ast.IfStmt)
+		if !ok {
+			return true
+		}
+		u, ok := is.Cond.(*ast.UnaryExpr)
+		if !ok || u.Op != token.NOT {
+			return true
+		}
+		if id, ok := u.X.(*ast.Ident); !ok || id.Name != "ok" {
+			return true
+		}
+		blocks++
+		rets, nils := 0, 0
+		ast.Inspect(is.Body, func(y ast.Node) bool {
+			if r, ok := y.(*ast.ReturnStmt); ok {
+				rets++
+				if len(r.Results) == 1 {
+					if id, ok := r.Results[0].(*ast.Ident); ok && id.Name == "nil" {
+						nils++
+					}
+				}
+			}
+			return true
+		})
+		if rets > 0 && rets == nils {
+			good++
+		}
+		return true
+	})
+	return blocks > 0 && blocks == good
+}
+
+// timerKeptAndStopped: does arm assign the result of time.AfterFunc to a field <recv>.<F>, and does stop call
+// <recv>.<F>.Stop().
+func timerKeptAndStopped(arm, stop *ast.FuncDecl) bool {
+	field := ""
+	ast.Inspect(arm, func(x ast.Node) bool {
+		as, ok := x.(*ast.AssignStmt)
+		if !ok || len(as.Lhs) != 1 || len(as.Rhs) != 1 {
+			return true
+		}
+		c, ok := as.Rhs[0].(*ast.CallExpr)
+		if !ok {
+			return true
+		}
+		if sel, ok := c.Fun.(*ast.SelectorExpr); ok && sel.Sel.Name == "AfterFunc" {
+			if l, ok := as.Lhs[0].(*ast.SelectorExpr); ok {
+				field = l.Sel.Name
+			}
+		}
+		return true
+	})
+	if field == "" {
+		return false
+	}
+	found := false
+	ast.Inspect(stop, func(x ast.Node) bool {
+		c, ok := x.(*ast.CallExpr)
+		if !ok {
+			return true
+		}
+		if sel, ok := c.Fun.(*ast.SelectorExpr); ok && sel.Sel.Name == "Stop" {
+			if f, ok := sel.X.(*ast.SelectorExpr); ok && f.Sel.Name == field {
+				found = true
+			}
+		}
+		return true
+	})
+	return found
+}
+
 func genExecTask(repo string) (string, error) {
 	ctl, err := parseFile(repo + "/executor/executable/controllabletask.go")
 	if err != nil {
@@ -130,7 +301,8 @@ func genExecTask(repo string) (string, error) {
 	ensure := findFunc(bas, "basicTaskBase", "ensureBasicTaskKilled")
 	bkill := findFunc(bas, "basicTaskBase", "Kill")
 	hkill := findFunc(hnd, "", "handleKillEvent")
-	if kill == nil || launch == nil || doLaunch == nil || ensure == nil || bkill == nil || hkill == nil {
+	hlaunch := findFunc(hnd, "", "handleLaunchEvent")
+	if kill == nil || launch == nil || doLaunch == nil || ensure == nil || bkill == nil || hkill == nil || hlaunch == nil {
 		return "", fmt.Errorf("an anchored function of C17 is gone")
 	}
 	// the teardown walk: switch currentState { case "X": evt = "E"; destination = "D" }
@@ -217,6 +389,11 @@ func genExecTask(repo string) (string, error) {
 		return "false"
 	}
 	fmt.Fprintf(&b, "/-- does ensureBasicTaskKilled compare taskCmd.ProcessState with nil before using it (go/ast). -/\ndef stopChecksProcessStateNil : Bool := %s\n\n", lb(comparesWithNil(ensure, "ProcessState")))
+	fmt.Fprintf(&b, "/-- does ensureBasicTaskKilled compare taskCmd.Process with nil before using its Pid (go/ast). -/\ndef stopChecksProcessNil : Bool := %s\n\n", lb(comparesWithNil(ensure, "Process")))
+	fmt.Fprintf(&b, "/-- is every send on pendingFinalTaskStateCh in ensureBasicTaskKilled a select case next to a default (go/ast). -/\ndef stopPushNonBlocking : Bool := %s\n\n", lb(sendsNonBlocking(ensure, "pendingFinalTaskStateCh")))
+	fmt.Fprintf(&b, "/-- does handleLaunchEvent return when NewTask gave nil, before calling Launch on it (go/ast). -/\ndef launchReturnsOnNilTask : Bool := %s\n\n", lb(returnsOnNilTask(hlaunch)))
+	fmt.Fprintf(&b, "/-- does handleKillEvent return nil (no handler error) when the task is not in activeTasks (go/ast). -/\ndef killInactiveReturnsNil : Bool := %s\n\n", lb(notOkReturnsNil(hkill)))
+	fmt.Fprintf(&b, "/-- does doLaunch keep the TASK_RUNNING timer in a field that basicTaskBase.Kill calls Stop() on (go/ast). -/\ndef basicKillStopsTimer : Bool := %s\n\n", lb(timerKeptAndStopped(doLaunch, bkill)))
 	fmt.Fprintf(&b, "/-- does ControllableTask.Kill compare t.rpc with nil (go/ast). -/\ndef killChecksRpcNil : Bool := %s\n\n", lb(comparesWithNil(kill, "rpc")))
 	fmt.Fprintf(&b, "/-- does basicTaskBase.Kill signal anything (a call named Kill or Signal) (go/ast). -/\ndef basicKillSignals : Bool := %s\n\n", lb(callsAny(bkill, "Kill", "Signal")))
 	fmt.Fprintf(&b, "/-- does ControllableTask.Launch compare taskCmd.Process with nil before using its Pid (go/ast). -/\ndef launchChecksProcessNil : Bool := %s\n\n", lb(comparesWithNil(launch, "Process")))
